@@ -155,10 +155,11 @@ func newWorld(ctx *simrt.Ctx, o poolOpts) *world {
 	w.stub("rpc", w.onRPC)
 	w.stub("p2p", w.onP2P)
 	w.cli = w.q.Client()
-	old := mem.VerifSetProcessNum(o.procNum)
+	// (not restored afterwards: the pool's goroutines read the value while they
+	// run, and every world sets it before it creates its pool)
+	mem.VerifSetProcessNum(o.procNum)
 	m := mempool.New(w.cfg)
 	m.SetQueueClient(w.q.Client())
-	mem.VerifSetProcessNum(old)
 	p, ok := m.(*mem.Mempool)
 	if !ok {
 		simrt.Failf("mempool module is %T", m)
